@@ -27,7 +27,8 @@ RULE = ("(a) all distinct queries of the C01 enumeration with <=2 leaves, every 
         "branches, built over logging generator domains and logging items: event log must be empty after construction; "
         "(b) consumption shapes x every k in 0..number of results: first k results are a prefix of a fresh full run, "
         "k=0 produces no event, and for k>=1 some selected variable o satisfies pulled_o(k) <= position of the last "
-        "element of o's generator occurring in the k results. non-trivial = cases whose full evaluation produces events")
+        "element of o's generator occurring in the k results, and a flattened lazily produced iterable has handed out no more "
+        "than the elements up to the k-th result. non-trivial = cases whose full evaluation produces events")
 ASSUMPTIONS = ["inner domains of a nested-loop evaluation may be drained between two results; only the existence of one "
                "variable that is never read ahead is required (loop-order agnostic)",
                "in consumption cases every variable of the query is selected, so its position in the results is known"]
